@@ -856,6 +856,75 @@ func checkSorted(c *Ctx) {
 		}
 		c.Check(bad == "", "C04.R3", key, pos, "stored from a loader whose successful returns are dominated by slices.Sort of the returned value", bad)
 	}
+	// (3) any other list of a rule that is binary-searched somewhere in the library: every value
+	// stored into the field was sorted by the function that stores it
+	type tf struct {
+		n *types.Named
+		f string
+	}
+	searched := map[tf]token.Pos{}
+	for _, fn := range c.P.AllLibFuncs() {
+		eachInstr(fn, func(_ *ssa.BasicBlock, in ssa.Instruction) {
+			cl, ok := in.(*ssa.Call)
+			if !ok || len(cl.Call.Args) == 0 {
+				return
+			}
+			cal := cl.Call.StaticCallee()
+			if cal == nil || !(strings.HasPrefix(calleeName(cal), "slices.BinarySearch") || strings.HasPrefix(calleeName(cal), "sort.Search")) {
+				return
+			}
+			if ld, ok := cl.Call.Args[0].(*ssa.UnOp); ok && ld.Op == token.MUL {
+				if n, f, ok := fieldOf(ld.X); ok && n != nil {
+					if namedIs(n, "rules", "clients") && f == "hosts" {
+						return // (1)
+					}
+					searched[tf{n, f}] = cl.Pos()
+				}
+			}
+		})
+	}
+	for k, pos := range searched {
+		key := k.n.Obj().Name() + "." + k.f + " is sorted before it is binary-searched"
+		bad := ""
+		nW := 0
+		for _, fn := range c.P.AllLibFuncs() {
+			eachInstr(fn, func(sb *ssa.BasicBlock, in ssa.Instruction) {
+				st, ok := in.(*ssa.Store)
+				if !ok {
+					return
+				}
+				n, f, ok := fieldOf(st.Addr)
+				if !ok || n != k.n || f != k.f {
+					return
+				}
+				nW++
+				if cst, isC := st.Val.(*ssa.Const); isC && cst.Value == nil {
+					return // the empty list is sorted
+				}
+				sorted := sortedBefore(c, fn, st.Val, sb, 0)
+				eachInstr(fn, func(b2 *ssa.BasicBlock, in2 ssa.Instruction) {
+					c2, ok := in2.(*ssa.Call)
+					if !ok || len(c2.Call.Args) == 0 {
+						return
+					}
+					cal := c2.Call.StaticCallee()
+					if cal == nil || !(strings.HasPrefix(calleeName(cal), "slices.Sort") || strings.HasPrefix(calleeName(cal), "sort.")) {
+						return
+					}
+					// the field sorted after the store
+					if ld, ok := c2.Call.Args[0].(*ssa.UnOp); ok && ld.Op == token.MUL {
+						if n2, f2, ok := fieldOf(ld.X); ok && n2 == k.n && f2 == k.f && sb.Dominates(b2) {
+							sorted = true
+						}
+					}
+				})
+				if !sorted {
+					bad = fmt.Sprintf("%s: %s stores a list into the field without sorting it, and %s binary-searches the field: values written in another order are not found", c.P.Pos(st.Pos()), shortFn(fn), c.P.Pos(pos))
+				}
+			})
+		}
+		c.Check(bad == "" && nW > 0, "C04.R3", key, pos, fmt.Sprintf("%d store(s) into the field, each of a value the storing function sorted", nW), bad)
+	}
 }
 
 // blocksAllPathsToReturn: every path from `from` to a Return passes through `via`.
@@ -903,4 +972,67 @@ func funcNameOfCall(c *Ctx, aux string) string {
 		}
 	}
 	return ""
+}
+
+// sortedBefore: value v, used in block at of fn, was sorted: by a sort call on it that dominates
+// the use, or because it is the result of a library function all of whose successful returns
+// return a sorted value at that position.
+func sortedBefore(c *Ctx, fn *ssa.Function, v ssa.Value, at *ssa.BasicBlock, depth int) bool {
+	if cst, isC := v.(*ssa.Const); isC && cst.Value == nil {
+		return true
+	}
+	found := false
+	eachInstr(fn, func(b2 *ssa.BasicBlock, in2 ssa.Instruction) {
+		c2, ok := in2.(*ssa.Call)
+		if !ok || len(c2.Call.Args) == 0 || in2.Parent() != fn {
+			return
+		}
+		cal := c2.Call.StaticCallee()
+		if cal == nil || !(strings.HasPrefix(calleeName(cal), "slices.Sort") || strings.HasPrefix(calleeName(cal), "sort.")) {
+			return
+		}
+		if c2.Call.Args[0] == v && b2.Dominates(at) {
+			found = true
+		}
+	})
+	if found || depth > 2 {
+		return found
+	}
+	var call *ssa.Call
+	idx := 0
+	switch x := v.(type) {
+	case *ssa.Extract:
+		call, _ = x.Tuple.(*ssa.Call)
+		idx = x.Index
+	case *ssa.Call:
+		call = x
+	}
+	if call == nil {
+		return false
+	}
+	callee := call.Call.StaticCallee()
+	if callee == nil || !c.P.IsLibFunc(callee) || callee.Blocks == nil {
+		return false
+	}
+	ok := true
+	n := 0
+	eachInstr(callee, func(_ *ssa.BasicBlock, in ssa.Instruction) {
+		r, isR := in.(*ssa.Return)
+		if !isR || in.Parent() != callee || idx >= len(r.Results) {
+			return
+		}
+		if len(r.Results) > 1 {
+			last := r.Results[len(r.Results)-1]
+			if _, isErr := last.Type().Underlying().(*types.Interface); isErr {
+				if cst, isC := last.(*ssa.Const); !isC || cst.Value != nil {
+					return // error return
+				}
+			}
+		}
+		n++
+		if !sortedBefore(c, callee, r.Results[idx], r.Block(), depth+1) {
+			ok = false
+		}
+	})
+	return ok && n > 0
 }
